@@ -190,6 +190,10 @@ def h_referencesf(o0: bytes, o1: bytes, o2: bytes, f0: int, f1: int, f2: int, sh
         rec = SegBytes([oids[p] if isinstance(p, int) else p for p in parts])
         got = SER.referencesf(rec)
         refs = SER.get_refs(rec)
+        supplied = []
+        for mine in ([], [b'already-there']):
+            n0 = len(mine)
+            supplied.append((n0, mine, SER.referencesf(rec, mine)))
     finally:
         SER.BytesIO = real
     # which slots are referenced, in stream order (a shared object is memoised by the pickler: one entry per use)
@@ -222,6 +226,12 @@ def h_referencesf(o0: bytes, o1: bytes, o2: bytes, f0: int, f1: int, f2: int, sh
     for g, w in zip(got, want):
         check(isinstance(g, bytes), 'extracted oid is not bytes', type(g).__name__)
         check(g == w, 'extracted oid differs from the referenced oid', g, w, fmts)
+    # the list a caller supplies is the one that is filled (an empty one, and one that already holds entries)
+    for n0, mine, ret in supplied:
+        check(ret is mine, 'referencesf did not return the list it was given')
+        check(len(mine) == n0 + len(want), 'referencesf did not append to the list it was given', n0, len(mine), len(want))
+        for g, w in zip(mine[n0:], want):
+            check(g == w, 'extracted oid (into a supplied list) differs from the referenced oid', g, w)
     # get_refs: (oid, class-info) for the same references
     check(len(refs) == len(want), 'get_refs: number of references differs', len(refs), len(want))
     for (g, k), w in zip(refs, want):
@@ -233,7 +243,7 @@ def h_referencesf(o0: bytes, o1: bytes, o2: bytes, f0: int, f1: int, f2: int, sh
 # Round trip through two connections
 
 def h_roundtrip(e0: bool, e1: bool, e2: bool, e3: bool, e4: bool, e5: bool, e6: bool, e7: bool, e8: bool,
-                kinds: int, explicit_add: bool, storage: str) -> None:
+                kinds: int, explicit_add: bool, storage: str, reset: bool = False) -> None:
     """3 fresh nodes + root; e0..e8 = adjacency bits (root->i, then i->j), kinds = base-3 digits per node."""
     a = 0
     for i, e in enumerate((e0, e1, e2, e3, e4, e5, e6, e7, e8)):
@@ -263,6 +273,13 @@ def h_roundtrip(e0: bool, e1: bool, e2: bool, e3: bool, e4: bool, e5: bool, e6: 
                 nodes.append(pobj.PNewArgs('node%d' % i))
             else:
                 nodes.append(pobj.PObj(name='node%d' % i, data={}))
+        # states of different sizes (later records of one writer are shorter than earlier ones and vice versa)
+        for i in range(n):
+            pad = 'pad-%d-' % i * (1 + 9 * ((i + 1) % 3))
+            if isinstance(nodes[i], PM):
+                nodes[i]['pad'] = pad
+            else:
+                nodes[i].data['pad'] = pad
         bit = 0
         edges = []
 
@@ -318,6 +335,7 @@ def h_roundtrip(e0: bool, e1: bool, e2: bool, e3: bool, e4: bool, e5: bool, e6: 
         from ZODB.utils import load_current
         for i in sorted(reach):
             data, _ = load_current(s, nodes[i]._p_oid)
+            check(pobj.trailing_bytes(data) == 0, 'a stored record holds bytes beyond its two pickles', i, pobj.trailing_bytes(data))
             refs = SER.referencesf(data)
             want = sorted(nodes[j]._p_oid for (src, j, via) in edges if src == i and via != 2)
             check(sorted(set(refs)) == sorted(set(want)), 'record references differ from the strong out-edges', i, refs, want)
@@ -327,6 +345,13 @@ def h_roundtrip(e0: bool, e1: bool, e2: bool, e3: bool, e4: bool, e5: bool, e6: 
         # load through another connection: isomorphic graph, one object per oid
         tm2 = transaction.TransactionManager()
         c2 = db.open(tm2)
+        if reset:
+            # ZODB.Connection.resetCaches(): pooled connections get a fresh object cache when they are opened next
+            import ZODB.Connection
+            c2.root()._p_activate()
+            c2.close()
+            ZODB.Connection.resetCaches()
+            c2 = db.open(tm2)
         r2 = c2.root()
         seen = {}
 
@@ -354,6 +379,9 @@ def h_roundtrip(e0: bool, e1: bool, e2: bool, e3: bool, e4: bool, e5: bool, e6: 
             if src == 'root':
                 walk(get(r2, 'n%d' % i), i)
         check(set(seen) <= reach, 'loaded graph contains an object that was not stored')
+        # what references lead to is what the connection itself hands out for the id
+        for idx, ob in seen.items():
+            check(c2.get(ob._p_oid) is ob, 'connection.get(oid) is another object than the one references lead to', idx)
         tm2.abort()
         tm.abort()
         db.close()
@@ -463,7 +491,7 @@ HARNESSES = [
             bounds='3 new nodes + root; edge carriers: direct / inside plain list+dict / weak reference',
             oracle='reachability over the edge list', code=['ObjectWriter.persistent_id/serialize', 'Connection._store_objects',
                                                              'ObjectReader.load_persistent/getGhost', 'referencesf'],
-            quick=dict(timeout=150, shards=shards(explicit_add=[False, True], storage=['file'], kinds=[0, 13, 21])),
+            quick=dict(timeout=150, shards=shards(explicit_add=[False, True], storage=['file'], kinds=[0, 13, 21]) + shards(explicit_add=[False], storage=['file'], kinds=[5], reset=[True])),
             thorough=dict(timeout=900, shards=shards(explicit_add=[False, True], storage=['file', 'mapping'], kinds=list(range(27))))),
     Harness('multidb_refs', h_multidb_refs,
             decides='every cross-database reference (all three reference formats: with class, class-less, inside plain containers) '
